@@ -54,9 +54,17 @@ Record cfg := mkCfg {
   c_inp : input;      (* what the reader goroutine will read, in order *)
   c_resume : bool;    (* first file block was not a header: it is item 0 and goes to input 0 *)
   c_hdr_err : err;    (* non-zero: Start fails with this error (no goroutine is started) *)
-  c_and : bool        (* reader loop condition: true  ctx.Err()==nil && err==nil  (repaired)
+  c_and : bool;       (* reader loop condition: true  ctx.Err()==nil && err==nil  (repaired, 687d55c)
                                                 false ctx.Err()==nil || err==nil  (original) *)
+  c_recheck : bool;   (* serializer re-checks ctx.Err() after every receive (repaired, 6ff9f52);
+                         false: original code, forwards whatever it received *)
+  c_nextctx : bool    (* true (repaired, 1677bc6): the serializer never writes cData.Err, Next takes
+                         the error of a closed ordered queue from cData.Err, else ctx.Err(), and
+                         stores io.EOF; false (original): the serializer stores ctx.Err() into
+                         cData.Err on its Done branches and Next reports cData.Err or io.EOF *)
 }.
+(* the code as it is now *)
+Definition current (c : cfg) : bool := c_and c && c_recheck c && c_nextctx c.
 Definition cap (c : cfg) : nat := 10 / c_n c.
 Definition loop_cond (c : cfg) (ctx_ok err_nil : bool) : bool :=
   if c_and c then ctx_ok && err_nil else ctx_ok || err_nil.
@@ -67,7 +75,7 @@ Inductive rpc :=
 | RSend (k : nat) (it : item) (sel : bool) (* holding pair k for input k mod n; sel: inside select *)
 | RDone.
 Inductive wpc := WRecv | WSend (o : opair) | WDone.
-Inductive spc := SRecv | SSend (p : opair) | SDone.
+Inductive spc := SRecv | SChk (p : opair) | SSend (p : opair) | SDone.
 Inductive cpc := CIdle | CNext | CClose.   (* consumer: outside, blocked in Next, in wg.Wait *)
 
 Record worker := mkW { w_in : list (nat * item); w_pc : wpc; w_out : list opair }.
@@ -205,32 +213,38 @@ Definition step_worker (c : cfg) (i : nat) (d : bool) (s : state) : option state
 Definition ser_exit (s : state) : state :=
   set_s_pc SDone (set_oq_closed true (set_cancelled true s)).
 
+Definition ser_done_branch (c : cfg) (s : state) : option state :=
+  if cancelled s then
+    Some (ser_exit (if c_nextctx c then s else set_cd_err eCtx s))   (* original: dec.cData.Err = ctx.Err() *)
+  else None.
+
 Definition step_ser (c : cfg) (d : bool) (s : state) : option state :=
   match s_pc s, d with
   | SRecv, false =>
       let i := s_cnt s mod c_n c in
       let w := getw i (ws s) in
       match w_out w with
-      | p :: q => Some (set_s_pc (SSend p) (set_s_cnt (S (s_cnt s))
+      | p :: q => Some (set_s_pc (SChk p) (set_s_cnt (S (s_cnt s))
                        (set_ws (setw i (mkW (w_in w) (w_pc w) q) (ws s)) s)))
       | [] => if is_wdone (w_pc w)       (* closed and empty: the zero value *)
-              then Some (set_s_pc (SSend zero_pair) (set_s_cnt (S (s_cnt s)) s))
+              then Some (set_s_pc (SChk zero_pair) (set_s_cnt (S (s_cnt s)) s))
               else None
       end
+  | SChk p, false =>                     (* if dec.ctx.Err() != nil { return } *)
+      if c_recheck c && cancelled s then Some (ser_exit s) else Some (set_s_pc (SSend p) s)
   | SSend p, false =>
       if length (oq s) <? c_n c then
         let s1 := set_oq (oq s ++ [p]) s in
         if is_err (o_err p) then Some (ser_exit s1) else Some (set_s_pc SRecv s1)
       else None
-  | SRecv, true | SSend _, true =>
-      if cancelled s then Some (ser_exit (set_cd_err eCtx s)) else None   (* dec.cData.Err = ctx.Err() *)
+  | SRecv, true | SSend _, true => ser_done_branch c s
   | _, _ => None
   end.
 
 (* ---- consumer: the body of decoder.Next, and the wg.Wait of Close ---- *)
-Definition next_fail (s : state) : state * list output :=
-  (* "if dec.cData.Err != nil return it; return io.EOF" -> Scan stores it and returns false *)
-  (set_c_pc CIdle (set_s_err (if is_err (cd_err s) then cd_err s else eEOF) s), [OScan false 0%Z]).
+Definition next_closed_err (c : cfg) (s : state) : err :=
+  if is_err (cd_err s) then cd_err s
+  else if c_nextctx c && cancelled s then eCtx else eEOF.
 
 Definition step_cons (c : cfg) (s : state) : option (state * list output) :=
   match c_pc s with
@@ -248,9 +262,16 @@ Definition step_cons (c : cfg) (s : state) : option (state * list output) :=
           match oq s with
           | cdp :: q =>
               let s1 := set_oq q (set_c_cnt (S (c_cnt s)) s) in
-              if Z.eqb (o_err cdp) eEOF then Some (next_fail s1)
+              if Z.eqb (o_err cdp) eEOF then
+                if c_nextctx c then                    (* dec.cData.Err = io.EOF; return nil, io.EOF *)
+                  Some (set_c_pc CIdle (set_s_err eEOF (set_cd_err eEOF s1)), [OScan false 0%Z])
+                else
+                  Some (set_c_pc CIdle (set_s_err (if is_err (cd_err s) then cd_err s else eEOF) s1),
+                        [OScan false 0%Z])
               else Some (set_cd_objs (o_objs cdp) (set_cd_err (o_err cdp) s1), [])
-          | [] => if oq_closed s then Some (next_fail s) else None
+          | [] => if oq_closed s
+                  then Some (set_c_pc CIdle (set_s_err (next_closed_err c s) s), [OScan false 0%Z])
+                  else None
           end
       end
   end.
